@@ -1,10 +1,263 @@
 import Lean.Data.Json
-open Lean
+import RaftVerif.Model.Conn
+open Lean Raft
 
+/-!
+JSON glue for engine "conn" (go/conndiff).  One whole scenario per case.
+
+Connection part:
+```
+{"engine":"conn","id":N,"part":"conn",
+ "listeners":[{"addr":A,"cid":C,"nid":I}...],            -- started in this order (pid = position)
+ "dialers":[{"cid":C,"nid":I,"max":1}...],
+ "ops":[{"op":"config","d":D,"binds":[[nid,addr]...]} | {"op":"resolver","d":D,"nid":I,"addr":A|-1}
+       | {"op":"lookup","d":D,"nid":I}
+       | {"op":"rpc","d":D,"dest":I,"kind":1..4} | {"op":"get","d":D,"dest":I} | {"op":"use","conn":K,"kind":1..4}
+       | {"op":"put","conn":K} | {"op":"closeAll","d":D,"dest":I}
+       | {"op":"start","addr":A,"cid":C,"nid":I} | {"op":"stop","addr":A}
+       | {"op":"rawdial","addr":A} | {"op":"rawsend","conn":K,"kind":0..4,"src":S,"cid":C,"nid":I}]}
+```
+Answer: `{"steps":[{"out":…,"conn":K?,"conns":[{id,lib,pid,dclosed,lclosed,pooled}…],"nproc":n}…],"processed":[…]}`.
+
+Lock part:
+```
+{"engine":"conn","id":N,"part":"lock","stored":[c,n],"locked":bool,
+ "ops":[{"op":"lock","p":P} | {"op":"unlock","p":P} | {"op":"rogueUnlock"} | {"op":"setid","p":P,"cid":C,"nid":I}
+       | {"op":"new"} | {"op":"serveStart","p":P} | {"op":"serveEnd","p":P}
+       | {"op":"micro","evs":[["create"|"link"|"stat"|"cleanup"|"unlock",P]…],"procs":[P…]}]}
+```
+Answer: `{"steps":[{"out":…,"stored":[c,n],"locked":b,"holders":[P…]}…]}`.
+-/
 namespace Driver.Conn
+open Raft.Conn
 
-/-- JSON glue for engine "Conn": one case in, one answer out. -/
+def getNat (j : Json) (k : String) : Except String Nat := j.getObjValAs? Nat k
+def getInt (j : Json) (k : String) : Except String Int := j.getObjValAs? Int k
+
+def kindOf : Nat → Except String Kind
+  | 1 => pure .vote
+  | 2 => pure .append
+  | 3 => pure .installSnap
+  | 4 => pure .timeoutNow
+  | n => throw s!"bad kind {n}"
+
+def kindNum : Kind → Nat
+  | .vote => 1 | .append => 2 | .installSnap => 3 | .timeoutNow => 4
+
+def errName : Err → String
+  | .ok => "ok" | .dialErr => "dialErr" | .identityErr => "identityErr" | .ioErr => "ioErr" | .noConn => "noConn"
+
+def connJson (i : Nat) (c : Raft.Conn.Conn) : Json :=
+  Json.mkObj [("id", toJson i), ("lib", toJson c.lib), ("pid", toJson c.lpid),
+    ("dclosed", toJson (decide (c.dstate = .closed))), ("lclosed", toJson (!c.lopen)), ("pooled", toJson c.pooled),
+    ("dialer", toJson c.dialer), ("icid", toJson c.intended.cid), ("inid", toJson c.intended.nid)]
+
+def connsJson (w : World) : Json :=
+  Json.arr ((List.range w.conns.length).filterMap (fun i => (w.conns[i]?).map (connJson i))).toArray
+
+def procJson (p : Processed) : Json :=
+  Json.mkObj [("conn", toJson p.conn), ("lib", toJson p.lib), ("pid", toJson p.pid),
+    ("lcid", toJson p.listener.cid), ("lnid", toJson p.listener.nid),
+    ("icid", toJson p.intended.cid), ("inid", toJson p.intended.nid),
+    ("scid", toJson p.src.cid), ("snid", toJson p.src.nid),
+    ("kind", toJson (kindNum p.kind)), ("src", toJson p.srcField)]
+
+def stepJson (w : World) (out : List (String × Json)) : Json :=
+  Json.mkObj (out ++ [("conns", connsJson w), ("nproc", toJson w.processed.length)])
+
+/-- one op: new world and the op's own outputs -/
+def connOp (w : World) (j : Json) : Except String (World × List (String × Json)) := do
+  let op ← j.getObjValAs? String "op"
+  match op with
+  | "config" => do
+    let d ← getNat j "d"
+    let binds ← j.getObjValAs? (List (List Nat)) "binds"
+    let evs := binds.filterMap (fun b => match b with
+      | [nid, a] => some (Ev.addrUpdate d nid a)
+      | _ => none)
+    pure (run w evs, [("out", Json.str "ok")])
+  | "resolver" => do
+    let d ← getNat j "d"
+    let nid ← getNat j "nid"
+    let a ← getInt j "addr"
+    let oa : Option Addr := if a < 0 then none else some a.toNat
+    pure (step w (.resolverSet d nid oa), [("out", Json.str "ok")])
+  | "lookup" => do
+    let d ← getNat j "d"
+    let nid ← getNat j "nid"
+    let r : Int := match w.dialers[d]? with
+      | some dl => match dl.resolve nid with
+        | some a => Int.ofNat a
+        | none => -1
+      | none => -1
+    pure (w, [("out", Json.num (JsonNumber.fromInt r))])
+  | "rpc" => do
+    let d ← getNat j "d"
+    let dest ← getNat j "dest"
+    let k ← kindOf (← getNat j "kind")
+    let r := doRPC w d dest k
+    pure (r.world, [("out", Json.str (errName r.err))])
+  | "get" => do
+    let d ← getNat j "d"
+    let dest ← getNat j "dest"
+    let g := getConn w d dest
+    let c : Int := match g.conn with
+      | some c => Int.ofNat c
+      | none => -1
+    pure (g.world, [("out", Json.str (errName g.err)), ("conn", Json.num (JsonNumber.fromInt c))])
+  | "use" => do
+    let c ← getNat j "conn"
+    let k ← kindOf (← getNat j "kind")
+    let r := useConn w c k
+    pure (r.world, [("out", Json.str (errName r.err))])
+  | "put" => do
+    let c ← getNat j "conn"
+    pure (putConn w c, [("out", Json.str "ok")])
+  | "closeAll" => do
+    let d ← getNat j "d"
+    let dest ← getNat j "dest"
+    pure (closeAll w d dest, [("out", Json.str "ok")])
+  | "start" => do
+    let a ← getNat j "addr"
+    let cid ← getNat j "cid"
+    let nid ← getNat j "nid"
+    pure (step w (.start a ⟨cid, nid⟩), [("out", Json.str "ok")])
+  | "stop" => do
+    let a ← getNat j "addr"
+    pure (step w (.stop a), [("out", Json.str "ok")])
+  | "rawdial" => do
+    let a ← getNat j "addr"
+    let w' := step w (.rawDial a)
+    let c : Int := if w'.conns.length = w.conns.length then -1 else Int.ofNat w.conns.length
+    pure (w', [("out", Json.str (if c < 0 then "dialErr" else "ok")), ("conn", Json.num (JsonNumber.fromInt c))])
+  | "rawsend" => do
+    let c ← getNat j "conn"
+    let kn ← getNat j "kind"
+    let src ← getNat j "src"
+    let m ← if kn = 0 then do
+        let cid ← getNat j "cid"
+        let nid ← getNat j "nid"
+        pure (Msg.identity src ⟨cid, nid⟩)
+      else do pure (Msg.req (← kindOf kn) src)
+    let lopenBefore := match w.conns[c]? with
+      | some x => x.lopen
+      | none => false
+    let w1 := run w (rawSendEvs c m)
+    let out := if lopenBefore then
+        match w1.conns[c]? with
+        | some x => match x.outbox with
+          | Resp.idMismatch :: _ => "result:2"
+          | _ :: _ => "result:1"
+          | [] => "err"
+        | none => "err"
+      else "err"
+    pure (step w1 (.rawRead c), [("out", Json.str out)])
+  | o => throw s!"unknown op {o}"
+
+def connScenario (j : Json) : Except String Json := do
+  let ls ← j.getObjValAs? (Array Json) "listeners"
+  let ds ← j.getObjValAs? (Array Json) "dialers"
+  let ops ← j.getObjValAs? (Array Json) "ops"
+  let dialers ← ds.toList.mapM (fun d => do
+    pure ({ ident := ⟨← getNat d "cid", ← getNat d "nid"⟩, max := (← getNat d "max") } : Dialer))
+  let mut w : World := { dialers := dialers }
+  for l in ls do
+    w := step w (.start (← getNat l "addr") ⟨← getNat l "cid", ← getNat l "nid"⟩)
+  let mut steps : Array Json := #[]
+  for o in ops do
+    let r ← connOp w o
+    w := r.1
+    steps := steps.push (stepJson w r.2)
+  pure (Json.mkObj [("steps", Json.arr steps), ("processed", Json.arr (w.processed.map procJson).toArray)])
+
+/-! ### lock part -/
+open Raft.Lock
+
+def resName : Res → String
+  | .ok => "ok" | .lockExists => "lockExists" | .ioErr => "ioErr" | .cidZero => "cidZero" | .nidZero => "nidZero"
+  | .alreadySet => "alreadySet" | .identityNotSet => "identityNotSet"
+
+def lastOf (s : State) (p : Nat) : String :=
+  match (s.procs p).last with
+  | some r => resName r
+  | none => "none"
+
+def lockStepJson (s : State) (known : List Nat) (out : List (String × Json)) : Json :=
+  Json.mkObj (out ++ [("stored", toJson [s.stored.1, s.stored.2]), ("locked", toJson s.lock.isSome),
+    ("holders", toJson (known.filter (fun p => isHolding (s.procs p).pc)))])
+
+def microEv (j : Json) : Except String Lock.Ev := do
+  let a ← fromJson? (α := Array Json) j
+  let name ← fromJson? (α := String) (a[0]?.getD Json.null)
+  let p ← fromJson? (α := Nat) (a[1]?.getD Json.null)
+  match name with
+  | "create" => pure (.create p .serve)
+  | "link" => pure (.link p)
+  | "stat" => pure (.stat p)
+  | "cleanup" => pure (.cleanup p)
+  | "unlock" => pure (.unlock p)
+  | n => throw s!"unknown micro event {n}"
+
+def lockOp (s : State) (j : Json) : Except String (State × List (String × Json)) := do
+  let op ← j.getObjValAs? String "op"
+  match op with
+  | "lock" => do
+    let p ← getNat j "p"
+    let s' := Lock.run s (lockDirEvs p .serve)
+    pure (s', [("out", Json.str (lastOf s' p))])
+  | "unlock" => do
+    let p ← getNat j "p"
+    pure (Lock.step s (.unlock p), [("out", Json.str "ok")])
+  | "rogueUnlock" => pure (rogueUnlock s, [("out", Json.str "ok")])
+  | "setid" => do
+    let p ← getNat j "p"
+    let r := setIdentity s p (← getNat j "cid") (← getNat j "nid")
+    pure (r.state, [("out", Json.str (resName r.returned)),
+      ("body", Json.str (match r.body with | some b => resName b | none => "none"))])
+  | "new" =>
+    let r := newNode s
+    pure (s, [("out", Json.str (resName r.1)), ("ident", toJson [r.2.cid, r.2.nid])])
+  | "serveStart" => do
+    let p ← getNat j "p"
+    let r := newNode s
+    if r.1 = .ok then
+      let s' := serveStart s p
+      pure (s', [("out", Json.str (lastOf s' p))])
+    else pure (s, [("out", Json.str (resName r.1))])
+  | "serveEnd" => do
+    let p ← getNat j "p"
+    pure (serveEnd s p, [("out", Json.str "ok")])
+  | "micro" => do
+    let evs ← (← j.getObjValAs? (Array Json) "evs").toList.mapM microEv
+    let procs ← j.getObjValAs? (List Nat) "procs"
+    let s' := Lock.run s evs
+    pure (s', [("out", toJson (procs.map (lastOf s')))])
+  | o => throw s!"unknown op {o}"
+
+def lockScenario (j : Json) : Except String Json := do
+  let st ← j.getObjValAs? (List Nat) "stored"
+  let locked ← j.getObjValAs? Bool "locked"
+  let ops ← j.getObjValAs? (Array Json) "ops"
+  let known := (j.getObjValAs? (List Nat) "procs").toOption.getD [0, 1, 2, 3, 4, 5, 6, 7]
+  -- a pre-existing lock file is a link to an inode nobody in this scenario owns
+  let mut s : State := { stored := (st[0]?.getD 0, st[1]?.getD 0), lock := if locked then some 0 else none, next := 1 }
+  let mut steps : Array Json := #[]
+  for o in ops do
+    let r ← lockOp s o
+    s := r.1
+    steps := steps.push (lockStepJson s known r.2)
+  pure (Json.mkObj [("steps", Json.arr steps)])
+
+def handleE (j : Json) : Except String Json := do
+  match (← j.getObjValAs? String "part") with
+  | "conn" => connScenario j
+  | "lock" => lockScenario j
+  | p => throw s!"unknown part {p}"
+
+/-- JSON glue for engine "conn": one scenario in, one answer out. -/
 def handle (j : Json) : Json :=
-  Json.mkObj [("error", Json.str "engine Conn not implemented")]
+  match handleE j with
+  | .ok r => r
+  | .error e => Json.mkObj [("error", Json.str e)]
 
 end Driver.Conn
